@@ -180,6 +180,7 @@ def reindex_database(
     error_files = error_file_whitelist.read_text().split("\n")
 
     num_of_updates = 0
+    pages_awaiting_write_back: set[str] = set()
     for zorg_page_name, hash_ in file_to_hash.copy().items():
         # If this file has never been indexed OR the file contents have changed
         # since the last time it was indexed.
@@ -225,6 +226,8 @@ def reindex_database(
             _check_for_modified_notes(cmd.zettel_dir, zorg_page, old_zorg_page)
             _LOGGER.debug("Adding zorg file", file=zorg_page_name)
             session.repo.add_file(zorg_page)
+            if zorg_page.events:
+                pages_awaiting_write_back.add(zorg_page_name)
             session.commit()
 
     # When the whole directory is reindexed, pages that no longer exist on
@@ -249,6 +252,12 @@ def reindex_database(
         # Only the given paths were looked at; every other page keeps the hash
         # it was last indexed with.
         file_to_hash = old_file_to_hash | file_to_hash
+    # Pages that are about to be rewritten (new ZIDs / modify dates) get their
+    # hash recorded by that write-back. Recording the hash of the
+    # not-yet-rewritten file here would make a run that is interrupted before
+    # the write-back look complete to the next reindex.
+    for zorg_page_name in pages_awaiting_write_back:
+        file_to_hash.pop(zorg_page_name, None)
     _write_file_hash_to_disk(file_hash_path, file_to_hash)
     error_file_whitelist.write_text("\n".join(sorted(error_files)))
     session.commit()
